@@ -6,7 +6,7 @@ import ast
 from hypothesis import strategies as st
 
 from .. import gen
-from ..cells import BG_NAME, FG_NAME, STYLES, build, build_any, cells, cells_of_desc, show
+from ..cells import BG_NAME, FG_NAME, STYLES, as_subclass, build, build_any, cells, cells_of_desc, show
 from ..common import Res, call, exc_str, hyp_campaign
 
 PROP = "C19"
@@ -136,6 +136,8 @@ def check_repr(res, desc, case):
     from curtsies import fmtfuncs
 
     f = build(desc, "chunks")
+    if case.get("sub"):
+        f = as_subclass(f)
     r, e = call(repr, f)
     if e is not None:
         res.viol("repr_raised", error=exc_str(e), case=case)
@@ -190,6 +192,13 @@ def run_case(case):
         res.label("str_operand")
     else:
         b, bc = build_any(bspec["desc"], case.get("b_build", "chunks"), case.get("b_obs", 0)), cells_of_desc(bspec["desc"])
+    if case.get("sub"):
+        # instances of an application's FmtStr subclass are FmtStrs: they compare and hash by what they display
+        res.label("subclass_instance_operand")
+        if case["sub"] in (1, 3):
+            a = as_subclass(a)
+        if case["sub"] in (2, 3) and not isinstance(b, str):
+            b = as_subclass(b)
     ac = cells_of_desc(a_desc)
     cells_differ = bc is not None and bc != ac and not isinstance(b, str)
     if bc is not None and not isinstance(b, str):
@@ -214,13 +223,14 @@ def strategy():
             "b": d,
             "b_str": gen.text("ab é", 0, 4),
             "a_build": gen.BUILDS, "a_obs": gen.OBS, "b_build": gen.BUILDS, "b_obs": gen.OBS,
+            "sub": st.sampled_from([0, 0, 0, 0, 0, 1, 2, 3]),
         }
     )
     rtext = st.one_of(st.text(alphabet="ab'\"\\\n\té中 x", min_size=0, max_size=5), st.text(alphabet="ab'\"\\\n\té中 x+(),=*", min_size=0, max_size=8),
                       st.text(alphabet="+'\"a()", min_size=0, max_size=8),
                       st.text(alphabet=" \t\n\xa0", min_size=0, max_size=40), st.text(alphabet="ab' \\\n", min_size=12, max_size=120))
     rdesc = st.lists(st.tuples(rtext, gen.atts()).map(list), min_size=1, max_size=4)
-    rep = st.fixed_dictionaries({"kind": st.just("repr"), "desc": rdesc})
+    rep = st.fixed_dictionaries({"kind": st.just("repr"), "desc": rdesc, "sub": st.sampled_from([0, 0, 0, 1])})
     return st.one_of(pair, pair, rep)
 
 
